@@ -58,6 +58,8 @@ class CEmitter:
         self._seen_types = set()
         self.lib_used = set()
         self.ld_standin = False
+        self.tables_used = {}    # tid -> set of helper kinds
+        self.strings = []        # interned string_view values (C representation: index)
 
     # ---------------------------------------------------------------- types
     def ctype(self, t):
@@ -88,6 +90,10 @@ class CEmitter:
         if k == 'vec':
             self.declare_type(t)
             return 'struct V_%s' % cident(tstr(t[1]))
+        if k == 'iter':
+            return 'int'
+        if k == 'strview':
+            return 'int'
         raise Unsupported('C type for %s' % (t,))
 
     def declare_type(self, t):
@@ -233,6 +239,8 @@ class CEmitter:
             return 'sqrt%s(%s)' % (suf, self.ex(args[0]))
         if name == 'abs' and t[0] == 'f':
             return 'fabs%s(%s)' % (suf, self.ex(args[0]))
+        if name in ('table_find', 'table_end', 'table_at', 'iter_second', 'iter_first', 'table_dispatch'):
+            return self.table_lib(e)
         if name in ('vec_data',):
             return '%s->data' % self.pex(args[0])
         if name in ('vec_size',):
@@ -241,6 +249,100 @@ class CEmitter:
         fn = '__CPROVER_uninterpreted_%s_%s' % (name, tag)
         self.lib_used.add(('decl', fn, self.ctype(t), tuple(self.ctype(a[1]) for a in args)))
         return '%s(%s)' % (fn, ', '.join(self.ex(a) for a in args))
+
+    # ---------------------------------------------------------------- tables
+    def tid_ident(self, tid):
+        return cident(tid)
+
+    def table_lib(self, e):
+        name, t, args = e[2], e[1], e[3]
+        if name == 'table_end':
+            return '(-1)'
+        tbl = args[0] if name in ('table_find', 'table_at', 'table_dispatch') else args[1]
+        tid = tbl[2]
+        self.tables_used.setdefault(tid, set()).add(name)
+        idn = self.tid_ident(tid)
+        if name == 'table_find':
+            self.tables_used[tid].add('table_find')
+            return 'phqv_find_%s(%s)' % (idn, self.ex(args[1]))
+        if name == 'table_at':
+            self.tables_used[tid].update(('table_find', 'iter_second'))
+            return 'phqv_at_%s(%s)' % (idn, self.ex(args[1]))
+        if name == 'iter_second':
+            return 'phqv_second_%s(%s)' % (idn, self.ex(args[0]))
+        if name == 'iter_first':
+            return 'phqv_first_%s(%s)' % (idn, self.ex(args[0]))
+        if name == 'table_dispatch':
+            self.tables_used[tid].add('table_find')
+            return 'phqv_dispatch_%s(%s)' % (idn, ', '.join(self.ex(a) for a in args[1:]))
+        raise Unsupported(name)
+
+    def intern(self, s):
+        if s not in self.strings:
+            self.strings.append(s)
+        return self.strings.index(s)
+
+    def item_c(self, it, T):
+        if it[0] == 'enum':
+            q, nm, v = self.low.enumconst[it[1]]
+            return '((%s)%d)' % (self.ctype(('enum', q)), v), ('enum', q)
+        if it[0] == 'str':
+            return '%d /* "%s" */' % (self.intern(it[1]), it[1].replace('*/', '* /')), ('strview',)
+        raise Unsupported('table item %s' % (it,))
+
+    def table_helpers(self):
+        from .lower import split_targs
+        T = self.low.get_tables()
+        protos, bodies = [], []
+        for tid in sorted(self.tables_used):
+            nm, targs = tid.split('<', 1)
+            args = tuple(x.strip() for x in split_targs(targs[:-1]))
+            rows = T.rows(nm, args)
+            idn = self.tid_ident(tid)
+            kinds = self.tables_used[tid]
+            k0, kt = self.item_c(rows[0][0], T)
+            KT = self.ctype(kt)
+            fn = ['static int phqv_find_%s(%s k) {' % (idn, KT)]
+            for i, (k, v) in enumerate(rows):
+                fn.append('  if (k == %s) return %d;' % (self.item_c(k, T)[0], i))
+            fn.append('  return -1;\n}')
+            protos.append('static int phqv_find_%s(%s k);' % (idn, KT))
+            bodies.append('\n'.join(fn))
+            if rows[0][1][0] == 'func':
+                g0 = self.low.func_for(rows[0][1][1])
+                ps = ', '.join('%s %s' % (self.ctype(t), n) for n, t in g0.params)
+                an = ', '.join(n for n, t in g0.params)
+                fn = ['static void phqv_dispatch_%s(%s k, %s) {' % (idn, KT, ps), '  int i = phqv_find_%s(k);' % idn,
+                      '  __CPROVER_assert(i >= 0, "lookup hits: %s.find(k)->second dereferences a valid iterator");' % nm]
+                for i, (k, v) in enumerate(rows):
+                    g = self.low.func_for(v[1])
+                    fn.append('  if (i == %d) { %s(%s); return; }' % (i, g.cname, an))
+                fn.append('}')
+                protos.append('static void phqv_dispatch_%s(%s k, %s);' % (idn, KT, ps))
+                bodies.append('\n'.join(fn))
+            else:
+                v0, vt = self.item_c(rows[0][1], T)
+                VT = self.ctype(vt)
+                fn = ['static %s phqv_second_%s(int i) {' % (VT, idn),
+                      '  __CPROVER_assert(i >= 0 && i < %d, "lookup hits: iterator of %s dereferenced is not end()");' % (len(rows), nm)]
+                for i, (k, v) in enumerate(rows):
+                    fn.append('  if (i == %d) return %s;' % (i, self.item_c(v, T)[0]))
+                fn.append('  return %s;\n}' % v0)
+                protos.append('static %s phqv_second_%s(int i);' % (VT, idn))
+                bodies.append('\n'.join(fn))
+                fn = ['static %s phqv_first_%s(int i) {' % (KT, idn),
+                      '  __CPROVER_assert(i >= 0 && i < %d, "lookup hits: iterator of %s dereferenced is not end()");' % (len(rows), nm)]
+                for i, (k, v) in enumerate(rows):
+                    fn.append('  if (i == %d) return %s;' % (i, self.item_c(k, T)[0]))
+                fn.append('  return %s;\n}' % k0)
+                protos.append('static %s phqv_first_%s(int i);' % (KT, idn))
+                bodies.append('\n'.join(fn))
+                fn = ['static %s phqv_at_%s(%s k) {' % (VT, idn, KT), '  int i = phqv_find_%s(k);' % idn,
+                      '  __CPROVER_assert(i >= 0, "map::at key present: %s.at(k) does not throw std::out_of_range");' % nm,
+                      '  return phqv_second_%s(i);\n}' % idn]
+                protos.append('static %s phqv_at_%s(%s k);' % (VT, idn, KT))
+                bodies.append('\n'.join(fn))
+        return '\n'.join(protos) + '\n', '\n\n'.join(bodies) + '\n'
 
     # ---------------------------------------------------------------- statements
     def st(self, s, ind):
@@ -347,7 +449,7 @@ class CEmitter:
             if f.body is None:
                 continue
             if f.cname in bodyless:
-                bodies.append(self.func_text(f, contracts.get(f.cname), body=False))
+                continue
             else:
                 bodies.append(self.func_text(f, contracts.get(f.cname)))
         decls = []
@@ -355,5 +457,6 @@ class CEmitter:
             _, fn, rt, ats = item
             decls.append('%s %s(%s);' % (rt, fn, ', '.join(ats)))
         hdr = ['#include <math.h>', '#include <stddef.h>']
+        tp, tb = self.table_helpers() if self.tables_used else ('', '')
         return '\n'.join(hdr) + '\n' + '\n'.join(self.need_types) + '\n' + '\n'.join(decls) + '\n' + \
-            '\n'.join(protos) + '\n' + extra + '\n' + '\n\n'.join(bodies) + '\n'
+            '\n'.join(protos) + '\n' + tp + extra + '\n' + tb + '\n' + '\n\n'.join(bodies) + '\n'
